@@ -5,6 +5,7 @@ import (
 	"fmt"
 	"sort"
 	"strings"
+	"sync/atomic"
 
 	u "github.com/utreexo/utreexo"
 	"vmc/ref"
@@ -507,6 +508,7 @@ func init() {
 		c.Cov.Bound["Nmax"] = fam.Nmax
 		BFS(c, fam, 0)
 		lightBases(c, "C07", pick(c, 3, 4), 0)
+		lightMedium(c, "C07", false)
 	}
 	Checks["C11"] = func(c *Ctx) {
 		fam := &LightFamily{Nmax: pick(c, 9, 11), Prop: "C11", RemMode: "none"}
@@ -514,6 +516,7 @@ func init() {
 		c.Cov.Bound["Nmax"] = fam.Nmax
 		BFS(c, fam, 0)
 		lightBases(c, "C11", pick(c, 4, 5), 0)
+		lightMedium(c, "C11", false)
 	}
 	Checks["C08"] = func(c *Ctx) {
 		fam := &LightFamily{Nmax: pick(c, 5, 6), Prop: "C08", UndoBud: 2}
@@ -522,7 +525,128 @@ func init() {
 		c.Cov.Bound["undo_budget"] = fam.UndoBud
 		BFS(c, fam, 0)
 		lightBases(c, "C08", pick(c, 3, 3), 1)
+		lightMedium(c, "C08", true)
 	}
+}
+
+// lightMedium drives the light client through a closed family of three-block histories on
+// 11..17 leaves with irregular deletion patterns (the BFS stops at 7-8 leaves):
+// [add N, remember all | none | even slots][delete S, add k remembering all][delete one live leaf]
+// (and for C08 an undo of the last block after each step), S = every subset of size <= 2 plus
+// every subset of the window of slots 2..9.
+func lightMedium(c *Ctx, prop string, undo bool) {
+	Ns := []int{12}
+	if c.Thorough() {
+		Ns = []int{11, 12, 13, 16, 17}
+	}
+	c.Cov.Bound["medium.N"] = fmt.Sprint(Ns)
+	rm := ""
+	if prop == "C11" {
+		rm = "none"
+	}
+	ub := 0
+	if undo {
+		ub = 1
+	}
+	fam := &LightFamily{Nmax: 64, UndoBud: ub, Prop: prop, RemMode: rm}
+	type job struct{ hist []Op }
+	var jobs []job
+	for _, N := range Ns {
+		seen := map[string]bool{}
+		var sets [][]int
+		add := func(x []int) {
+			if len(x) > 0 && !seen[fmt.Sprint(x)] {
+				seen[fmt.Sprint(x)] = true
+				sets = append(sets, x)
+			}
+		}
+		for a := 0; a < N; a++ {
+			add([]int{a})
+			for b := a + 1; b < N; b++ {
+				add([]int{a, b})
+			}
+		}
+		for mask := 1; mask < 256; mask++ {
+			var x []int
+			for j := 0; j < 8; j++ {
+				if mask&(1<<uint(j)) != 0 {
+					x = append(x, 2+j)
+				}
+			}
+			add(x)
+		}
+		all := make([]int, N)
+		var evens []int
+		for i := range all {
+			all[i] = i
+			if i%2 == 0 {
+				evens = append(evens, i)
+			}
+		}
+		rems := [][]int{all, evens}
+		if prop == "C11" {
+			rems = [][]int{{}}
+		}
+		for _, R := range rems {
+			for _, S := range sets {
+				dead := map[int]bool{}
+				for _, d := range S {
+					dead[d] = true
+				}
+				for _, k := range []int{0, 1, 3} {
+					kr := make([]int, k)
+					for i := range kr {
+						kr[i] = i
+					}
+					if prop == "C11" {
+						kr = []int{}
+					}
+					base := []Op{{Kind: "block", Adds: N, Rem: R}, {Kind: "block", Dels: S, Adds: k, Rem: kr}}
+					if undo {
+						jobs = append(jobs, job{append(append([]Op(nil), base...), Op{Kind: "undo"})})
+					}
+					for x := 0; x < N+k; x++ {
+						if dead[x] {
+							continue
+						}
+						h := append(append([]Op(nil), base...), Op{Kind: "block", Dels: []int{x}, Rem: []int{}})
+						if undo {
+							h = append(h, Op{Kind: "undo"})
+						}
+						jobs = append(jobs, job{h})
+					}
+				}
+			}
+		}
+	}
+	var steps, evals int64
+	ok := parallelFor(c, len(jobs), func(i int) {
+		n, _ := fam.Root()
+		for _, op := range jobs[i].hist {
+			r := fam.Step(n, op)
+			atomic.AddInt64(&steps, 1)
+			atomic.AddInt64(&evals, r.Evals)
+			c.Col.Add(r.Viol...)
+			for _, nt := range r.Notes {
+				c.Col.Note(nt)
+			}
+			if r.Next == nil {
+				break
+			}
+			n = r.Next
+		}
+		if i%4999 == 0 {
+			c.Cov.Sample("medium: " + histStr(jobs[i].hist))
+		}
+	})
+	if !ok {
+		c.Cov.NotExhaustive("deadline reached in the medium light-client family")
+	}
+	c.Cov.AddStates(int64(len(jobs)))
+	c.Cov.AddTransitions(steps)
+	c.Cov.AddEvals(evals)
+	c.Cov.AddNontrivial(int64(len(jobs)))
+	c.Cov.SetExtra("medium_family_histories", len(jobs))
 }
 
 // lightBases runs the light-client family from bare roots of large accumulators (offset-start
